@@ -137,6 +137,26 @@ impl Cache {
     pub fn verif_entries(&self) -> impl Iterator<Item = &CachedItem> {
         self.data.iter()
     }
+
+    /// Returns a copy of the cache (used to branch during exhaustive enumeration of operation sequences).
+    pub fn verif_clone(&self) -> Self {
+        Self {
+            cache_limit: self.cache_limit,
+            cache_time_limit: self.cache_time_limit,
+            cache_size: self.cache_size,
+            data: self
+                .data
+                .iter()
+                .map(|item| CachedItem {
+                    route: item.route.clone(),
+                    host: item.host,
+                    mime_type: item.mime_type,
+                    cache_time: item.cache_time,
+                    data: item.data.clone(),
+                })
+                .collect(),
+        }
+    }
 }
 
 impl From<&Config> for Cache {
